@@ -43,7 +43,16 @@ def main(ws, pid, dry=False):
             continue
         r = sh(["git", "apply", "--3way", "--whitespace=nowarn", "-"], cwd=V, inp=d)
         if r.returncode != 0:
-            bad.append((p, r.stderr[-300:]))
+            # additive edits on both sides (dispatch lines, imports): keep both
+            txt = (V / p).read_text()
+            if "<<<<<<< ours" in txt and p.endswith((".lean", ".py")):
+                import re
+                txt = re.sub(r"<<<<<<< ours\n(.*?)=======\n(.*?)>>>>>>> theirs\n", lambda m: m.group(1) + m.group(2), txt, flags=re.S)
+                (V / p).write_text(txt)
+                sh(["git", "add", p], cwd=V)
+                print("AUTO-RESOLVED (kept both sides):", p)
+            else:
+                bad.append((p, r.stderr[-300:]))
     # known findings: workspace's entries for PID replace ours
     mine = json.loads((V / "known_findings.json").read_text())
     theirs = json.loads((ws / "known_findings.json").read_text())
